@@ -1,5 +1,5 @@
 (* C16/Properties.v — property theorems only. Each is closed by a lemma of C16/Proofs.v (or C16/Tlv.v). *)
-From Relic Require Import Base.Prelude Base.Enc Generated.C16_gen C16.Model C16.Tlv C16.Proofs C16.VModel C16.VProofs.
+From Relic Require Import Base.Prelude Base.Enc Generated.C16_gen C16.Model C16.Tlv C16.Proofs C16.VModel C16.VProofs C16.Pss.
 
 (* 1. Unmarshal, Marshal, Unmarshal: whatever pkcs7.Unmarshal accepts is emitted in a form it accepts again, with the same
       signed regions (encapsulated content info, certificates, tbsCertList of every CRL, every SignerInfo), and emitting
@@ -376,3 +376,24 @@ Example sd_verify_knows_every_construct :
             | None => False end
   | _ => False end.
 Proof. vm_compute. reflexivity. Qed.
+
+(* ---- RSA-PSS parameters in CMS (C16 / C05 reference-verifier acceptance): the saltLength written into the signature
+        AlgorithmIdentifier is the salt length the signer uses, for every option value (auto / equals-hash / explicit),
+        every hash length and every modulus size (the 8k+1-bit class was a finding, fixed by relic 4b12f85). *)
+Theorem pss_declared_salt_is_used : forall saltOpt modBits hLen declared used,
+  0 <= modBits ->
+  pss_sign_run saltOpt modBits hLen = Some (declared, used) ->
+  pss_call_sites_ok = true /\ spec_verifier_accepts declared used = true /\ used = spec_salt saltOpt modBits hLen.
+Proof. exact C16.Pss.pss_declared_salt_is_used. Qed.
+
+(* regression for the fixed finding: moduli of 2049 and 1025 bits with auto salt *)
+Example pss_regression_modbits_1_mod_8 :
+  pss_sign_run 0 2049 32 = Some (222, 222) /\ pss_sign_run 0 1025 32 = Some (94, 94).
+Proof. exact C16.Pss.pss_regression_modbits_1_mod_8. Qed.
+
+(* non-vacuity: the three option kinds on RSA-2048 / SHA-256, SHA-384, SHA-512 *)
+Example pss_auto_2048_sha256 : pss_sign_run 0 2048 32 = Some (222, 222). Proof. reflexivity. Qed.
+Example pss_auto_2048_sha512 : pss_sign_run 0 2048 64 = Some (190, 190). Proof. reflexivity. Qed.
+Example pss_eqhash_2048_sha384 : pss_sign_run (-1) 2048 48 = Some (48, 48). Proof. reflexivity. Qed.
+Example pss_explicit20 : pss_sign_run 20 2048 32 = Some (20, 20). Proof. reflexivity. Qed.
+Example pss_negative_refused : pss_sign_run (-2) 2048 32 = None. Proof. reflexivity. Qed.
